@@ -28,6 +28,6 @@ def main(chk):
 MANIFEST = {
     'category': 'proof',
     'technique': 'Coq proof (the C01 generic round trip applied to a composite driver; per-format leaf lemmas on the wire norm functions) + vm_compute correspondence of the schema-less tree against the wire models + direct three-step transcoding oracle on the implementation (five formats, cross-format, math/big number comparison)',
-    'text': 'C15_reencode_is_tree: Encode(tree) asks the driver for exactly the tree. C15_same_generic_partial: for every pair of drivers meeting the stated side condition keeps (the C01 driver interface for the composite F-tree-G), every supported type and well-typed value, any options and map order, decoding the re-encoded tree into the static type gives the value up to the documented losses (G = F and G != F); satisfiable instances proved. C15_nums_*: the integer a leaf denotes is the integer in the tree for cbor (unguarded) and msgpack/simple/binc (SignedInteger only below 2^63; refuted beyond for msgpack: F07-1n); strings keep their bytes; floats are float64. The tree the real decoder builds equals the wire model\'s on every harness case (four binary formats).',
+    'text': 'C15_reencode_is_tree: Encode(tree) asks the driver for exactly the tree. C15_same_generic_partial: for every pair of drivers meeting the stated side condition keeps (the C01 driver interface for the composite F-tree-G), every supported type and well-typed value, any options and map order, decoding the re-encoded tree into the static type gives the value up to the documented losses (G = F and G != F); satisfiable instances proved. C15_nums_total_*: in cbor, msgpack, simple and binc an integer leaf either comes back as the same integer or (SignedInteger with an unsigned value >= 2^63) the schema-less decode of its encoding is the overflow error - never another number (F07-1n repaired); strings keep their bytes; floats are float64. The tree the real decoder builds equals the wire model\'s on every harness case (four binary formats).',
     'note': 'Partial: the concrete formats are not composed with the generic theorem (as in C01); json has no model instance. Known finding F15-1 (json integral floats >= 2^52 written as integer literals: tree number differs / negative literal in (-2^64,-2^63) refused).',
 }
